@@ -213,6 +213,19 @@ def gen_spec(rnd, gt, profile="mixed"):
             if key not in seen:
                 seen.add(key)
                 spec["edges"].append({"src": src, "tgt": tgt, "label": lab})
+            # twins between the same endpoints whose labels are easy to
+            # confuse: no label vs the all-default label vs one flag set
+            if rnd.random() < 0.25:
+                for lab2 in (None,
+                             {"type": "Branch", "conditional": False,
+                              "direct": False},
+                             {"type": "Branch", "conditional": False,
+                              "direct": True}):
+                    key2 = (src, tgt, repr(lab2))
+                    if key2 not in seen and rnd.random() < 0.7:
+                        seen.add(key2)
+                        spec["edges"].append({"src": src, "tgt": tgt,
+                                              "label": lab2})
     nodes = node_uuids(spec)
     spec["aux"] = gen_aux(rnd, gt, nodes, rnd.choice([0, 1, 2, 3]))
     for m in spec["modules"]:
